@@ -144,7 +144,14 @@ func H_C08_lookup() {
 	if firstOK >= 0 {
 		vfAssert(has, "deadline-set-for-valid-timeout-header")
 		if has {
-			vfAssert(dl.Sub(at) == time.Duration(want), "deadline-equals-arrival-plus-exact-timeout")
+			if vfIsSymbolic() {
+				// the clock is frozen inside the call: the deadline is exactly arrival + timeout
+				vfAssert(dl.Sub(at) == time.Duration(want), "deadline-equals-arrival-plus-exact-timeout")
+			} else {
+				// native replay: real time passes between the two clock readings
+				d := dl.Sub(at)
+				vfAssert(d >= time.Duration(want) && d < time.Duration(want)+time.Second, "deadline-equals-arrival-plus-exact-timeout")
+			}
 		}
 		vfReach("has-deadline")
 	} else {
@@ -217,4 +224,29 @@ func H_C08_nodeadline() {
 	_, has := hctx.Deadline()
 	vfAssert(!has, "handler-has-no-deadline")
 	vfReach("done")
+}
+
+// H_C04_request_md: metadata attached to the caller's outgoing context (with and without a
+// deadline) goes through headersFromContext and contextFromHeaders and is what the handler's
+// incoming context carries: same keys, values in order, -bin values byte-exact.
+func H_C04_request_md() {
+	withDeadline := vfParam("deadline", 1)
+	v1, v2, b1 := vfString("v1", 2), vfString("v2", 1), vfString("b1", 2)
+	ctx := metadata.AppendToOutgoingContext(context.Background(), "k", v1, "k", v2, "x-bin", b1)
+	if withDeadline == 1 {
+		var cancel context.CancelFunc
+		ctx, cancel = context.WithTimeout(ctx, 5*time.Second)
+		defer cancel()
+	}
+	hs := headersFromContext(ctx)
+	hctx, hcancel, err := contextFromHeaders(context.Background(), &goatorepo.RequestHeader{Headers: hs})
+	defer hcancel()
+	vfAssert(err == nil, "handler-context-built")
+	md, ok := metadata.FromIncomingContext(hctx)
+	vfAssert(ok, "handler-sees-incoming-metadata")
+	vfAssert(len(md["k"]) == 2 && md["k"][0] == v1 && md["k"][1] == v2, "text-values-in-order")
+	vfAssert(len(md["x-bin"]) == 1 && md["x-bin"][0] == b1, "binary-value-byte-exact")
+	_, has := hctx.Deadline()
+	vfAssert(has == (withDeadline == 1), "deadline-iff-callers")
+	vfReach("checked")
 }
